@@ -86,19 +86,76 @@ Proof.
     + rewrite Hy. apply IHa. exact Ha.
 Qed.
 
+(* exact-length positional facts about NamedTuple walks *)
+Lemma nt_defaults_all (q: sfield -> pv -> bool) rest r :
+  Forall (fun f => forall dv, sf_default f = Some dv -> q f dv = true) rest ->
+  nt_defaults rest = Ok r -> nt_all q rest r = true.
+Proof.
+  intros HF. revert r. induction HF as [|f rest Hf HF IH]; intros r H.
+  - inversion H. reflexivity.
+  - cbn [nt_defaults] in H. destruct (sf_default f) as [dv|] eqn:Ed; [|discriminate H].
+    destruct (nt_defaults rest) as [ys|]; [|discriminate H]. cbn [bind] in H. inversion H; subst.
+    cbn [nt_all]. rewrite (Hf dv eq_refl). apply (IH ys eq_refl).
+Qed.
+
+Section NtConf.
+  Context {X: Type}.
+  Variable q : sfield -> pv -> bool.
+  Variable G : sfield -> Prop.
+  Variable run : sfield -> X -> res pv.
+  Variable konst : sfield -> option pv.
+  Variable miss : list sfield -> res (list pv).
+  Hypothesis konst_ok : forall f c, konst f = Some c -> q f c = true.
+  Hypothesis miss_ok : forall rest r, Forall G rest -> miss rest = Ok r -> nt_all q rest r = true.
+
+  Lemma nt_tail_all fds r : Forall G fds -> nt_tail konst miss fds = Ok r -> nt_all q fds r = true.
+  Proof.
+    intros HG. revert r. induction HG as [|f rest Hf HG IH]; intros r H.
+    - inversion H. reflexivity.
+    - cbn [nt_tail] in H. destruct (konst f) as [c|] eqn:Ek.
+      + destruct (nt_tail konst miss rest) as [ys|]; [|discriminate H]. inversion H; subst.
+        cbn [nt_all]. rewrite (konst_ok f c Ek). apply (IH ys eq_refl).
+      + apply (miss_ok (f :: rest) r (Forall_cons f Hf HG) H).
+  Qed.
+
+  Lemma nt_items_all fds (l: list X) r :
+    Forall G fds -> (forall f x y, In x l -> run f x = Ok y -> q f y = true) ->
+    nt_items run konst miss fds l = Ok r -> nt_all q fds r = true.
+  Proof.
+    revert fds r. induction l as [|x l IH]; intros fds r HG Hr H.
+    - destruct fds as [|f rest]; [inversion H; reflexivity|]. cbn [nt_items] in H. apply (nt_tail_all _ _ HG H).
+    - destruct fds as [|f rest]; [inversion H; reflexivity|]. cbn [nt_items] in H.
+      destruct (run f x) as [y|] eqn:Ey; [|discriminate H].
+      destruct (nt_items run konst miss rest l) as [ys|] eqn:Eys; [|discriminate H]. inversion H; subst.
+      inversion HG as [|? ? Hf HG']; subst.
+      cbn [nt_all]. rewrite (Hr f x y (or_introl eq_refl) Ey).
+      apply (IH rest ys HG'); [|exact Eys]. intros f0 x0 y0 Hx0. apply Hr. right. exact Hx0.
+  Qed.
+End NtConf.
+
 Section Conform.
+  Variable o : bool.
   Variable E : senv.
   Variable P : prims.
 
-  (* class table well-formedness: declared defaults conform to their field *)
-  Definition default_ok (f: sfield) : bool :=
+  (* class table well-formedness: field names pairwise distinct; declared defaults conform to
+     their field -- for a dataclass a field whose default is None is nullable, for a NamedTuple
+     the default itself must be an instance of the annotation, a TypedDict has no defaults *)
+  Definition default_ok (kd: ckind) (f: sfield) : bool :=
     match f.(sf_default) with
     | None => true
-    | Some dv => (sfield_nullable f && is_none dv) || conf E dv f.(sf_ty) end.
-  Hypothesis env_defaults : forallb (fun c => forallb default_ok c.(sc_fields)) E = true.
+    | Some dv =>
+        match kd with
+        | KData => (sfield_nullable f && is_none dv) || conf_g o E dv f.(sf_ty)
+        | KNamed => conf_g o E dv f.(sf_ty)
+        | KTyped => true end
+    end.
+  Definition cls_wf (c: scls) : bool :=
+    names_nodup c.(sc_fields) && forallb (default_ok c.(sc_kind)) c.(sc_fields).
+  Hypothesis env_wf : forallb cls_wf E = true.
 
   Lemma coerce_conf s d r : coerce_s P s d = Ok r ->
-    conf E r (match s with SInt => SIntT | SFloat => SFloatT | SBool => SBoolT | SStr => SStrT | SNone => SNoneT end) = true.
+    conf_g o E r (match s with SInt => SIntT | SFloat => SFloatT | SBool => SBoolT | SStr => SStrT | SNone => SNoneT end) = true.
   Proof.
     destruct s; cbn [coerce_s]; intros H.
     - destruct d; try (destruct (p_int P _); cbn [lift bind] in H; [|discriminate]); inversion H; reflexivity.
@@ -112,7 +169,7 @@ Section Conform.
     (fix go (ts: list sty) (l: list pv) {struct l} : bool :=
        match ts, l with
        | [], [] => true
-       | t' :: ts', x :: l' => conf E x t' && go ts' l'
+       | t' :: ts', x :: l' => conf_g o E x t' && go ts' l'
        | _, _ => false end) ts r = true.
   Proof.
     induction ts as [|t ts IH]; intros r H.
@@ -124,10 +181,81 @@ Section Conform.
       destruct ts0; [|discriminate]. inversion Ec. reflexivity.
   Qed.
 
-  Lemma dec_str_conf t : forall s r, ref_dec_str E P t s = Ok r -> conf E r t = true.
+  Lemma sfind_wf kd c k : sfind E kd c = Some k ->
+    names_nodup k.(sc_fields) = true /\ forallb (default_ok kd) k.(sc_fields) = true.
   Proof.
-    induction t as [ | | | | | | m' | k' | e' | t' IHt | fr' t' IHt | t' IHt | ts IHts | kt IHkt vt IHvt | t' IHt | c' ]
-      using sty_ind'; intros s r H; cbn [ref_dec_str] in H.
+    intros H. destruct (sfind_In E kd c k H) as [Hin Hk].
+    rewrite forallb_forall in env_wf. pose proof (env_wf k Hin) as Hw. unfold cls_wf in Hw.
+    apply andb_prop in Hw. rewrite Hk in Hw. exact Hw.
+  Qed.
+
+  Lemma const_ty_conf t c : const_ty t = Some c -> conf_g o E c t = true.
+  Proof.
+    destruct t as [ | | | | | | | | | | | | [|t1 ts1] | | t' | | | ]; intros H; try discriminate H; inversion H; reflexivity.
+  Qed.
+
+  (* a successful TypedDict walk returns a conforming dict, keys in canonical order *)
+  Lemma td_conf {D} (run: sfield -> D -> res pv) ms es fds R :
+    names_nodup fds = true ->
+    (forall f d y, In f fds -> look es (sf_name f) = Some d -> run f d = Ok y -> conf_g o E y (sf_ty f) = true) ->
+    td_go run konst_t ms es (td_order fds) = Ok R ->
+    nodup_keys R && forallb (fun p => key_declared fds (fst p)) R &&
+    (let cs : list (pv * (sty -> bool)) := map (fun p => match p with (key, x) => (key, conf_g o E x) end) R in
+     forallb (fun f => match look cs (sf_name f) with Some cx => cx (sf_ty f) | None => sf_opt f end) fds) &&
+    (if o then td_sorted (td_order fds) R else true) = true.
+  Proof.
+    intros Hn Hrun HR. pose proof (names_nodup_td_order fds Hn) as Hno.
+    repeat (apply andb_true_intro; split).
+    - apply (td_go_nodup _ _ _ _ _ _ Hno HR).
+    - apply forallb_forall. intros p Hp. destruct (td_go_keys _ _ _ _ _ _ HR p Hp) as [f [Hf Hk]].
+      rewrite Hk. cbn [key_declared]. apply existsb_exists. exists f. split; [apply In_td_order; exact Hf | apply String.eqb_refl].
+    - cbv zeta. apply forallb_forall. intros f Hf. rewrite (look_map (conf_g o E) R).
+      destruct (td_go_look _ _ _ _ _ _ Hno HR f (In_td_order_iff f fds Hf)) as [[Hnone Hl] | [y [Hsome Hl]]];
+        rewrite Hl; cbn [option_map]; unfold td_field in *.
+      + destruct (sf_opt f); [reflexivity|]. destruct (konst_t f); [discriminate Hnone|].
+        destruct (look es (sf_name f)); discriminate Hnone.
+      + destruct (sf_opt f).
+        * destruct (look es (sf_name f)) as [d|] eqn:El; [|discriminate Hsome]. inversion Hsome as [Hy].
+          apply (Hrun f d y Hf El Hy).
+        * destruct (konst_t f) as [c|] eqn:Ek.
+          -- inversion Hsome; subst. apply const_ty_conf. exact Ek.
+          -- destruct (look es (sf_name f)) as [d|] eqn:El; [|discriminate Hsome]. inversion Hsome as [Hy].
+             apply (Hrun f d y Hf El Hy).
+    - destruct o; [|reflexivity]. apply (td_go_sorted _ _ _ _ _ _ Hno HR).
+  Qed.
+
+  Lemma td_nondict_conf c k r : sfind E KTyped c = Some k ->
+    td_nondict konst_t k.(sc_fields) = Ok r -> conf_g o E r (STyped c) = true.
+  Proof.
+    intros Ef H. unfold td_nondict in H.
+    match type of H with (bind ?X _ = _) => destruct X as [R|] eqn:Em end; [|discriminate H]. cbn [bind] in H.
+    destruct (existsb _ _); [discriminate H|]. inversion H.
+    rewrite conf_unfold, Ef. destruct (sfind_wf _ _ _ Ef) as [Hn _].
+    refine (td_conf _ _ _ _ _ Hn _ Em). intros f d y _ Hl. discriminate Hl.
+  Qed.
+
+  Lemma nt_miss_ok rest r : Forall (fun f => default_ok KNamed f = true) rest ->
+    forall hd, nt_exhausted hd rest = Ok r -> nt_all (fun f y => conf_g o E y (sf_ty f)) rest r = true.
+  Proof.
+    intros HG hd Hm. unfold nt_exhausted in Hm. destruct hd; [|discriminate Hm].
+    apply (nt_defaults_all _ rest r); [|exact Hm].
+    apply Forall_forall. intros f Hf dv Hdv. pose proof (Forall_In _ _ HG f Hf) as Hd. cbv beta in Hd.
+    unfold default_ok in Hd. rewrite Hdv in Hd. exact Hd.
+  Qed.
+
+  Lemma nt_fields_ok c k : sfind E KNamed c = Some k -> Forall (fun f => default_ok KNamed f = true) k.(sc_fields).
+  Proof.
+    intros Ef. destruct (sfind_wf _ _ _ Ef) as [_ Hd]. apply Forall_forall. intros f Hf.
+    rewrite forallb_forall in Hd. apply Hd. exact Hf.
+  Qed.
+
+  Lemma dec_str_conf_gen n :
+    (forall n', n = S n' -> forall t s r, ref_dec_str E P n' t s = Ok r -> conf_g o E r t = true) ->
+    forall t s r, ref_dec_str E P n t s = Ok r -> conf_g o E r t = true.
+  Proof.
+    intros Hprev.
+    induction t as [ | | | | | | m' | k' | e' | t' IHt | fr' t' IHt | t' IHt | ts IHts | kt IHkt vt IHvt | t' IHt | c' | c' | c' ]
+      using sty_ind'; intros s r H; rewrite ref_dec_str_unfold in H.
     - rewrite conf_unfold. reflexivity.
     - inversion H. reflexivity.
     - apply (coerce_conf SInt _ _ H).
@@ -150,29 +278,93 @@ Section Conform.
       + inversion Em. reflexivity.
       + destruct cs as [|c0 cs].
         * apply (none_tail_conf (t1 :: ts) l Em).
-        * destruct (ref_dec_str E P t1 c0) as [y|] eqn:Ey; [|discriminate]. cbn [bind] in Em.
+        * destruct (ref_dec_str E P n t1 c0) as [y|] eqn:Ey; [|discriminate]. cbn [bind] in Em.
           match type of Em with (bind ?X _ = _) => destruct X as [ys|] eqn:Eys end; [|discriminate].
           inversion Em; subst. rewrite (H1 c0 y Ey). cbn [andb]. apply (IH cs ys Eys).
     - discriminate.
     - rewrite conf_unfold. rewrite (IHt s r H). apply orb_true_r.
-    - destruct (sfind E c') as [k|] eqn:Ef; discriminate.
+    - destruct (sfind E _ c') as [k|] eqn:Ef; discriminate.
+    - (* NamedTuple from a str *)
+      destruct (sfind E _ c') as [k|] eqn:Ef; [|discriminate H].
+      destruct n as [|n']; [discriminate H|].
+      match type of H with (bind ?X _ = _) => destruct X as [l|] eqn:Em end; [|discriminate H]. cbn [bind] in H. inversion H.
+      rewrite conf_unfold. rewrite String.eqb_refl, Ef. cbn [andb].
+      refine (nt_items_all (fun f y => conf_g o E y (sf_ty f)) (fun f => default_ok KNamed f = true) _ konst_t _ _ _ _ _ _ (nt_fields_ok _ _ Ef) _ Em).
+      + intros f c Hc. apply const_ty_conf. exact Hc.
+      + intros rest r0 HG Hm. apply (nt_miss_ok rest r0 HG _ Hm).
+      + intros f x y _ Hy. apply (Hprev n' eq_refl _ _ _ Hy).
+    - (* TypedDict from a str *)
+      destruct (sfind E _ c') as [k|] eqn:Ef; [|discriminate H]. apply (td_nondict_conf _ _ _ Ef H).
   Qed.
 
-  Definition conf_ok (d: pv) : Prop := forall t r, ref_dec E P d t = Ok r -> conf E r t = true.
-
-  Lemma sfind_defaults c k : sfind E c = Some k -> forallb default_ok k.(sc_fields) = true.
+  Lemma dec_str_conf n : forall t s r, ref_dec_str E P n t s = Ok r -> conf_g o E r t = true.
   Proof.
-    intros H. rewrite forallb_forall in env_defaults. apply (env_defaults k).
-    clear - H. induction E as [|x E' IH]; cbn [sfind] in H; [discriminate|].
-    destruct (String.eqb (sc_name x) c); [inversion H; left; reflexivity | right; apply IH; exact H].
+    induction n as [|n IHn]; apply dec_str_conf_gen.
+    - intros n' Hc. discriminate Hc.
+    - intros n' Hc. inversion Hc; subst. exact IHn.
+  Qed.
+
+  Definition conf_ok (d: pv) : Prop := forall t r, ref_dec E P d t = Ok r -> conf_g o E r t = true.
+
+  Lemma named_conf d c r :
+    (forall x, In x (match d with VList l | VTuple l => l | _ => [] end) -> conf_ok x) ->
+    ref_dec E P d (SNamed c) = Ok r -> conf_g o E r (SNamed c) = true.
+  Proof.
+    intros IH H. rewrite ref_dec_unfold in H.
+    destruct (sfind E _ c) as [k|] eqn:Ef; [|discriminate H].
+    assert (Hseq: forall l, (forall x, In x l -> conf_ok x) ->
+              (r0 <- nt_items (fun f x => ref_dec E P x (sf_ty f)) konst_t (nt_exhausted (has_default (sc_fields k))) (sc_fields k) l ;;
+               Ok (VNT c r0)) = Ok r -> conf_g o E r (SNamed c) = true).
+    { intros l IHl H0.
+      match type of H0 with (bind ?X _ = _) => destruct X as [l0|] eqn:Em end; [|discriminate H0]. cbn [bind] in H0. inversion H0.
+      rewrite conf_unfold. rewrite String.eqb_refl, Ef. cbn [andb].
+      refine (nt_items_all (fun f y => conf_g o E y (sf_ty f)) (fun f => default_ok KNamed f = true) _ konst_t _ _ _ _ _ _ (nt_fields_ok _ _ Ef) _ Em).
+      + intros f c0 Hc. apply const_ty_conf. exact Hc.
+      + intros rest r0 HG Hm. apply (nt_miss_ok rest r0 HG _ Hm).
+      + intros f x y Hx Hy. apply (IHl x Hx _ _ Hy). }
+    assert (Hoth: (r0 <- nt_tail konst_t (fun _ => Exn XTypeError) (sc_fields k) ;; Ok (VNT c r0)) = Ok r ->
+                  conf_g o E r (SNamed c) = true).
+    { intros H0.
+      match type of H0 with (bind ?X _ = _) => destruct X as [l0|] eqn:Em end; [|discriminate H0]. cbn [bind] in H0. inversion H0.
+      rewrite conf_unfold. rewrite String.eqb_refl, Ef. cbn [andb].
+      refine (nt_tail_all (fun f y => conf_g o E y (sf_ty f)) (fun f => default_ok KNamed f = true) konst_t _ _ _ _ _ (nt_fields_ok _ _ Ef) Em).
+      + intros f c0 Hc. apply const_ty_conf. exact Hc.
+      + intros rest r0 _ Hm. discriminate Hm. }
+    destruct d; try (apply Hoth; exact H).
+    - apply (dec_str_conf _ (SNamed c) _ _ H).
+    - apply (Hseq l IH H).
+    - apply (Hseq l IH H).
+  Qed.
+
+  Lemma typed_conf d c r :
+    (forall x, In x (match d with VDict kvs => map snd kvs | _ => [] end) -> conf_ok x) ->
+    ref_dec E P d (STyped c) = Ok r -> conf_g o E r (STyped c) = true.
+  Proof.
+    intros IH H. rewrite ref_dec_unfold in H.
+    destruct (sfind E _ c) as [k|] eqn:Ef; [|discriminate H].
+    destruct d; try (apply (td_nondict_conf _ _ _ Ef H)).
+    cbv zeta in H.
+    match type of H with (bind ?X _ = _) => destruct X as [R|] eqn:Em end; [|discriminate H]. cbn [bind] in H. inversion H.
+    rewrite conf_unfold, Ef. destruct (sfind_wf _ _ _ Ef) as [Hn _].
+    refine (td_conf _ _ _ _ _ Hn _ Em).
+    intros f d y _ Hl Hy. rewrite (look_map (ref_dec E P) kvs) in Hl.
+    destruct (look kvs (sf_name f)) as [x|] eqn:El; [|discriminate Hl]. cbn [option_map] in Hl. inversion Hl; subst d.
+    destruct (look_In _ _ _ El) as [key [Hin _]].
+    apply (IH x); [|exact Hy]. apply in_map_iff. exists (key, x). split; [reflexivity | exact Hin].
   Qed.
 
   Theorem ref_dec_conforms : forall d, conf_ok d.
   Proof.
     induction d as [ | b | z | f | s | m b | l IHl | l IHl | fr l IHl | kvs IHk | c fs IHf | e m | k w | c l IHl | tg ]
       using pv_rect'; unfold conf_ok.
-    all: intros t; induction t as [ | | | | | | m' | k' | e' | t' IHt | fr' t' IHt | t' IHt | ts | kt IHkt vt IHvt | t' IHt | c' ];
-      intros r H; rewrite ref_dec_unfold in H.
+    all: intros t; induction t as [ | | | | | | m' | k' | e' | t' IHt | fr' t' IHt | t' IHt | ts | kt IHkt vt IHvt | t' IHt | c' | c' | c' ];
+      intros r H; pose proof H as H0; rewrite ref_dec_unfold in H.
+    (* NamedTuple / TypedDict *)
+    all: try solve [ refine (named_conf _ c' r _ H0); cbn; intros x Hx; first [ destruct Hx | apply (Forall_In _ _ IHl x Hx) ] ].
+    all: try solve [ refine (typed_conf _ c' r _ H0); cbn; intros x Hx; try (destruct Hx; fail);
+                     apply in_map_iff in Hx; destruct Hx as [p [Hp1 Hp2]]; subst x;
+                     apply (proj2 (Forall_In _ _ IHk p Hp2)) ].
+    all: clear H0.
     (* scalars, leaves *)
     all: try (inversion H; reflexivity).
     all: try (apply (coerce_conf SInt _ _ H)).
@@ -187,13 +379,13 @@ Section Conform.
     all: try solve [ rewrite conf_unfold; cbn [is_none] in H;
                      first [ inversion H; reflexivity | rewrite (IHt r H); apply orb_true_r ] ].
     (* str inputs *)
-    all: try solve [ first [ apply (dec_str_conf (SList t') _ _ H) | apply (dec_str_conf (SSet fr' t') _ _ H)
-                           | apply (dec_str_conf (STupleVar t') _ _ H) | apply (dec_str_conf (STupleFix ts) _ _ H) ] ].
+    all: try solve [ first [ apply (dec_str_conf _ (SList t') _ _ H) | apply (dec_str_conf _ (SSet fr' t') _ _ H)
+                           | apply (dec_str_conf _ (STupleVar t') _ _ H) | apply (dec_str_conf _ (STupleFix ts) _ _ H) ] ].
     (* fixed tuple / dataclass given a non-sequence / non-mapping *)
     all: try solve [ destruct (none_tail_t ts) as [r0|] eqn:En; [|discriminate H]; cbn [bind] in H; inversion H;
                      rewrite conf_unfold; apply (none_tail_conf ts r0 En) ].
-    all: try solve [ destruct (sfind E c') as [k0|] eqn:Ef; [|discriminate H];
-                     first [ apply (dec_str_conf (SData c') _ _ H) | discriminate H ] ].
+    all: try solve [ destruct (sfind E _ c') as [k0|] eqn:Ef; [|discriminate H];
+                     first [ apply (dec_str_conf _ (SData c') _ _ H) | discriminate H ] ].
     (* homogeneous containers over list-like inputs *)
     all: try solve [ destruct (mapM _ _) as [l0|] eqn:Em; [|discriminate H]; cbn [bind] in H;
                      try (destruct (forallb hashable l0); [|discriminate H]); inversion H; rewrite conf_unfold;
@@ -203,7 +395,7 @@ Section Conform.
     all: try solve [ destruct (mapM _ _) as [l0|] eqn:Em; [|discriminate H]; cbn [bind] in H;
                      try (destruct (forallb hashable l0); [|discriminate H]); inversion H; rewrite conf_unfold;
                      try (rewrite eqb_reflx; cbn [andb]; apply forallb_set_of_list);
-                     apply (forallb_mapM_res _ _ _ _ (fun (p: pv * pv) y Hp => match p as p0 return In p0 kvs -> (let (k, _) := p0 in ref_dec E P k t') = Ok y -> conf E y t' = true with (k, x) => fun Hp' Hy => proj1 (Forall_In _ _ IHk (k, x) Hp') t' y Hy end Hp) Em) ].
+                     apply (forallb_mapM_res _ _ _ _ (fun (p: pv * pv) y Hp => match p as p0 return In p0 kvs -> (let (k, _) := p0 in ref_dec E P k t') = Ok y -> conf_g o E y t' = true with (k, x) => fun Hp' Hy => proj1 (Forall_In _ _ IHk (k, x) Hp') t' y Hy end Hp) Em) ].
     - (* VList, STupleFix *)
       match type of H with (bind ?X _ = _) => destruct X as [r0|] eqn:Em end; [|discriminate H]. cbn [bind] in H. inversion H.
       rewrite conf_unfold. clear H H1. revert ts r0 Em. induction l as [|x l IHl']; intros ts r0 Em.
@@ -225,7 +417,7 @@ Section Conform.
     - (* VDict, SDict *)
       match type of H with (bind ?X _ = _) => destruct X as [r0|] eqn:Em end; [|discriminate H]. cbn [bind] in H. inversion H.
       rewrite conf_unfold. rewrite nodup_dict_of_pairs. cbn [andb].
-      apply (forallb_dict_of_pairs _ r0 (fun _ _ _ _ => or_intror I) (fun k => conf E k kt) (fun x => conf E x vt) (fun k v => eq_refl)).
+      apply (forallb_dict_of_pairs _ r0 (fun _ _ _ _ => or_intror I) (fun k => conf_g o E k kt) (fun x => conf_g o E x vt) (fun k v => eq_refl)).
       refine (forallb_mapM_res _ _ _ _ _ Em). intros [k x] [k' x'] Hp Hy.
       destruct (Forall_In _ _ IHk (k, x) Hp) as [Qk Qx]. cbn [fst snd] in Qk, Qx.
       destruct (ref_dec E P k kt) as [k1|] eqn:Ek; [|discriminate Hy]. cbn [bind] in Hy.
@@ -233,10 +425,10 @@ Section Conform.
       destruct (hashable k1); [|discriminate Hy]. inversion Hy; subst.
       rewrite (Qk kt k' Ek), (Qx vt x' Ex). reflexivity.
     - (* VDict, SData *)
-      destruct (sfind E c') as [k0|] eqn:Ef; [|discriminate H]. cbv zeta in H.
+      destruct (sfind E _ c') as [k0|] eqn:Ef; [|discriminate H]. cbv zeta in H.
       match type of H with (bind ?X _ = _) => destruct X as [r0|] eqn:Em end; [|discriminate H]. cbn [bind] in H. inversion H.
       rewrite conf_unfold. rewrite String.eqb_refl, Ef. cbn [andb].
-      pose proof (sfind_defaults c' k0 Ef) as Hdef. clear H H1 Ef.
+      destruct (sfind_wf _ _ _ Ef) as [_ Hdef]. clear H H1 Ef.
       revert r0 Em Hdef. generalize (sc_fields k0) as fds.
       induction fds as [|f fds IHfds]; intros r0 Em Hdef.
       + inversion Em. reflexivity.
@@ -246,19 +438,19 @@ Section Conform.
         inversion Em; subst. rewrite String.eqb_refl. rewrite (IHfds tl eq_refl Hdr). rewrite andb_true_r. cbn [andb].
         (* where does y come from? *)
         clear Em Etl IHfds.
-        assert (Hlook: forall o,
+        assert (Hlook: forall oo,
                   (fix look (es: list (pv * (pv * (sty -> res pv)))) : option (pv * (sty -> res pv)) :=
                      match es with
                      | [] => None
                      | (key, xd) :: er => if py_eq key (VStr f.(sf_name)) then Some xd else look er
-                     end) (map (fun p : pv * pv => match p with (key, x) => (key, (x, ref_dec E P x)) end) kvs) = o ->
-                  match o with
+                     end) (map (fun p : pv * pv => match p with (key, x) => (key, (x, ref_dec E P x)) end) kvs) = oo ->
+                  match oo with
                   | Some (x, dx) => conf_ok x /\ dx = ref_dec E P x
                   | None => True end).
-        { clear Ey. induction kvs as [|[key x] kvs IHkvs]; intros o Ho.
-          - cbn in Ho. subst o. exact I.
+        { clear Ey. induction kvs as [|[key x] kvs IHkvs]; intros oo Ho.
+          - cbn in Ho. subst oo. exact I.
           - cbn [map] in Ho. destruct (py_eq key (VStr (sf_name f))).
-            + subst o. inversion IHk as [|? ? [_ Qx] _]; subst. cbn [snd] in Qx. split; [exact Qx | reflexivity].
+            + subst oo. inversion IHk as [|? ? [_ Qx] _]; subst. cbn [snd] in Qx. split; [exact Qx | reflexivity].
             + apply IHkvs; [inversion IHk; assumption | exact Ho]. }
         match type of Ey with (match ?X with _ => _ end = _) => specialize (Hlook X eq_refl); destruct X as [[x dx]|] end.
         * destruct Hlook as [Qx Hdx]. subst dx.
